@@ -224,10 +224,12 @@ def run_case(case, tier):
         for (s, a, b, c), t in work:
             monthly = s == " each month"
             n = rnd.choice([1, 3, 12]) if monthly else 0
+            # magnitudes from a handful of kilograms or people (1e-12 in the "million"/"billion" units) to far above national totals
+            mag = (lambda: 10 ** rnd.uniform(-12, 8)) if rnd.random() < 0.3 else (lambda: rnd.uniform(0.001, 1e4))
             if monthly:
-                vals = [np.array([rnd.uniform(0.001, 1e4) for _ in range(n)]) for _ in range(3)]
+                vals = [np.array([mag() for _ in range(n)]) for _ in range(3)]
             else:
-                vals = [rnd.uniform(0.001, 1e4) for _ in range(3)]
+                vals = [mag() for _ in range(3)]
             x = Food(vals[0], vals[1], vals[2], a + s, b + s, c + s)
             x0 = (np.array(x.kcals, float).copy(), np.array(x.fat, float).copy(), np.array(x.protein, float).copy(), list(x.units))
             where = "%r -> %r" % ((a + s, b + s, c + s), t)
